@@ -1,3 +1,4 @@
+import sqlite3
 from typing import TYPE_CHECKING, Union
 
 if TYPE_CHECKING:
@@ -51,6 +52,11 @@ def init_interwiki_map(wtp: "Wtp") -> None:
 
 
 def get_interwiki_map(wtp: "Wtp") -> dict[str, dict[str, Union[str, bool]]]:
+    try:
+        rows = wtp.db_conn.execute("SELECT * FROM interwiki_maps").fetchall()
+    except sqlite3.OperationalError:
+        # the table only exists after init_interwiki_map() has run
+        rows = []
     return {
         prefix: {
             "prefix": prefix,
@@ -63,9 +69,7 @@ def get_interwiki_map(wtp: "Wtp") -> dict[str, dict[str, Union[str, bool]]]:
             "isTranscludable": False,
             "isExtraLanguageLink": False,
         }
-        for (prefix, url, protorel, local) in wtp.db_conn.execute(
-            "SELECT * FROM interwiki_maps"
-        )
+        for (prefix, url, protorel, local) in rows
     }
 
 
